@@ -73,7 +73,15 @@ Proof. intros P. unfold data_to_be_signed. rewrite (attrs_cbor_perm _ _ P). refl
 Theorem encode_response_header_perm (status : Z) (h h' : headers) :
   Permutation h h' -> encode_response_header status h = encode_response_header status h'.
 Proof.
-  intros P. unfold encode_response_header. apply enc_map_perm. apply perm_skip.
+  intros P. unfold encode_response_header.
+  assert (F : forallb hdr_writable_b h = forallb hdr_writable_b h').
+  { clear - P. induction P as [|x l l' _ IH|x y l|l l' l'' _ IH1 _ IH2]; cbn [forallb];
+      [reflexivity|rewrite IH; reflexivity| |congruence].
+    destruct (hdr_writable_b x), (hdr_writable_b y); reflexivity. }
+  rewrite F.
+  destruct ((status <? 100) || (999 <? status))%Z; [reflexivity|].
+  destruct (negb (forallb hdr_writable_b h')); [reflexivity|].
+  apply enc_map_perm. apply perm_skip.
   apply Permutation_map. exact P.
 Qed.
 
@@ -129,7 +137,9 @@ Proof.
   cbn [add_exchanges]. rewrite (encode_response_perm _ _ Px).
   destruct Px as (Eu & _ & _ & P).
   destruct (encode_response x') as [item| | |]; cbn [bind]; try reflexivity.
-  rewrite Eu, !(hdr_lookup_perm _ _ _ P Hx). apply IH. exact Hl.
+  rewrite Eu, !(hdr_lookup_perm _ _ _ P Hx).
+  destruct (negb (utf8_valid (bx_url x'))); [reflexivity|].
+  destruct (negb (fst (index_url_ok (bx_url x')))); [reflexivity|]. apply IH. exact Hl.
 Qed.
 
 (* b_write uses the header maps only through encode_response_header and
